@@ -100,9 +100,9 @@ theorem usage_exact (L : Lawful P Ok) (cfg : Cfg) (hn : 0 < cfg.nshards) (cap : 
 (the copy being replaced still counts), never hits an `unwrap`, and afterwards the shard is within
 capacity unless the policy has nothing left to pop or the new entry alone exceeds the shard. -/
 theorem insert_evicts_minimally (L : Lawful P Ok) {cfg : Cfg} {c : Cache σ}
-    (hc : CacheInv P Ok cfg c) (key ver weight : Nat) (hint : Hint) (s : Shard σ)
+    (hc : CacheInv P Ok cfg c) (key ver weight : Nat) (hint : Hint) (loc : Loc) (age : Age) (s : Shard σ)
     (hs : c.shards[cfg.shardOf (cfg.H key)]? = some s) :
-    let res := Cache.step P cfg c (.ins key ver weight hint false)
+    let res := Cache.step P cfg c (.ins key ver weight hint false loc age)
     res.2.ret ≠ Ret.panic ∧
     ∃ (vs : List Rec) (repl : List (Reason × Rec)) (s1 s' : Shard σ),
       res.2.leaves = vs.map (fun v => (Reason.evict, v)) ++ repl ∧
@@ -116,7 +116,7 @@ theorem insert_evicts_minimally (L : Lawful P Ok) {cfg : Cfg} {c : Cache σ}
       (s'.usage ≤ s.cap ∨ s.cap < weight ∨ P.pop s1.ev = none) := by
   have hsi := hc.shard _ s hs
   have hfr := hc.fresh _ s hs
-  have sp := emplace_spec (r := { id := c.nextId, key, hash := cfg.H key, ver, weight, hint, phantom := false }) L hsi rfl
+  have sp := emplace_spec (r := { id := c.nextId, key, hash := cfg.H key, ver, weight, hint, phantom := false, loc, age }) L hsi rfl
     (fun x hx => Nat.ne_of_lt (hfr x hx))
   simp only [Cache.step, hs]
   generalize Shard.emplace P s _ = res at sp
@@ -160,13 +160,13 @@ theorem insert_evicts_minimally (L : Lawful P Ok) {cfg : Cfg} {c : Cache σ}
 
 /-- **phantom_neutral**: a disk-only (phantom) insert evicts nothing and does not increase usage. -/
 theorem phantom_neutral (L : Lawful P Ok) {cfg : Cfg} {c : Cache σ}
-    (hc : CacheInv P Ok cfg c) (key ver weight : Nat) (hint : Hint) (s : Shard σ)
+    (hc : CacheInv P Ok cfg c) (key ver weight : Nat) (hint : Hint) (loc : Loc) (age : Age) (s : Shard σ)
     (hs : c.shards[cfg.shardOf (cfg.H key)]? = some s) :
-    let res := Cache.step P cfg c (.ins key ver weight hint true)
+    let res := Cache.step P cfg c (.ins key ver weight hint true loc age)
     res.2.piped = [] ∧ (∀ e x, (e, x) ∈ res.2.leaves → e ≠ Reason.evict) ∧
     ∃ s', res.1.shards[cfg.shardOf (cfg.H key)]? = some s' ∧ s'.usage ≤ s.usage ∧ s'.cap = s.cap := by
   have hsi := hc.shard _ s hs
-  have sp := emplace_phantom_spec (r := { id := c.nextId, key, hash := cfg.H key, ver, weight, hint, phantom := true }) L hsi rfl
+  have sp := emplace_phantom_spec (r := { id := c.nextId, key, hash := cfg.H key, ver, weight, hint, phantom := true, loc, age }) L hsi rfl
   simp only [Cache.step, hs]
   generalize Shard.emplace P s _ = res at sp
   obtain ⟨s', lv, pk⟩ := res
@@ -278,7 +278,7 @@ theorem no_panic (L : Lawful P Ok) {cfg : Cfg} (hn : 0 < cfg.nshards) {c : Cache
     obtain ⟨i, hi, rfl⟩ := List.getElem_of_mem hs
     exact hc.shard i _ (List.getElem?_eq_getElem hi)
   cases op with
-  | ins key ver weight hint phantom =>
+  | ins key ver weight hint phantom loc age =>
     simp only [Cache.step]
     split
     · simp
@@ -286,13 +286,13 @@ theorem no_panic (L : Lawful P Ok) {cfg : Cfg} (hn : 0 < cfg.nshards) {c : Cache
       have hsi := hc.shard _ s hs
       cases phantom with
       | true =>
-        have sp := emplace_phantom_spec (r := { id := c.nextId, key, hash := cfg.H key, ver, weight, hint, phantom := true }) L hsi rfl
+        have sp := emplace_phantom_spec (r := { id := c.nextId, key, hash := cfg.H key, ver, weight, hint, phantom := true, loc, age }) L hsi rfl
         generalize Shard.emplace P s _ = res at sp
         obtain ⟨s', lv, pk⟩ := res
         have : pk = false := sp.1
         subst this; simp
       | false =>
-        have sp := emplace_spec (r := { id := c.nextId, key, hash := cfg.H key, ver, weight, hint, phantom := false }) L hsi rfl
+        have sp := emplace_spec (r := { id := c.nextId, key, hash := cfg.H key, ver, weight, hint, phantom := false, loc, age }) L hsi rfl
           (fun x hx => Nat.ne_of_lt (hc.fresh _ s hs x hx))
         generalize Shard.emplace P s _ = res at sp
         obtain ⟨s', lv, pk⟩ := res
